@@ -12,7 +12,7 @@
 // `x := e`, `x = e`, `x op= e`, `x++/x--`, `var x T [= e]`, if/else (with optional init), `for _, x := range xs`, return e,
 // continue, break (unlabelled), a call statement of a func-typed parameter whose arguments are pure (built from
 // identifiers, literals, composite literals, selectors on them and arithmetic); expressions over + - * comparisons && || !
-// unary -, len(), integer and bool literals, nil, and calls of previously translated functions.
+// unary -, len(), the builtins min/max on ints, integer and bool literals, nil, and calls of previously translated functions.
 //
 // Scoping: every declaration is given a fresh canonical name (p0.. for parameters, v0.. for locals in order of
 // declaration), so the embedding's environment is flat and renaming a variable does not change the output.
@@ -172,6 +172,20 @@ func (t *tr) expr(e ast.Expr) string {
 				t.fail(x, "len is shadowed")
 			}
 			return "(ELen " + t.expr(x.Args[0]) + ")"
+		}
+		if (id.Name == "min" || id.Name == "max") && len(x.Args) >= 2 && !t.shadowed(id.Name) {
+			// the builtins (Go 1.21): left fold over the arguments
+			op := map[string]string{"min": "BMin", "max": "BMax"}[id.Name]
+			for _, a := range x.Args {
+				if t.kindOf(a) != "int" {
+					t.fail(x, "%s of non-int arguments", id.Name)
+				}
+			}
+			acc := t.expr(x.Args[0])
+			for _, a := range x.Args[1:] {
+				acc = "(EBin " + op + " " + acc + " " + t.expr(a) + ")"
+			}
+			return acc
 		}
 		if !t.known[id.Name] || t.shadowed(id.Name) {
 			t.fail(x, "call of %s (not a previously translated function)", id.Name)
